@@ -43,7 +43,7 @@
 
 From Coq Require Import PrimFloat.
 From Coq Require Import ZArith List Bool Reals Lra Permutation Sorted.
-From BZ Require Import Base.Ops Gen.Point Gen.BBox Gen.Line Gen.Quad Gen.Cubic Hand.Bounds Hand.CurveCurve Proofs.C02 Proofs.C06.
+From BZ Require Import Base.Ops Gen.Point Gen.BBox Gen.Line Gen.Quad Gen.Cubic Hand.Bounds Hand.CurveCurve Proofs.C02 Proofs.C06 Proofs.C06sym.
 Import ListNotations.
 Open Scope R_scope.
 
@@ -113,6 +113,42 @@ Proof. exact (@no_miss_example). Qed.
 Theorem C06_quantitative_clause_refuted :
   Cubic_pointAtTime ROps rf_a (1 / 10) = Cubic_pointAtTime ROps rf_b (1 / 2) /\ (forall (K : Type) (key2 : R -> K) (keq : K -> K -> bool) (fuel : nat), cc_t ROps key2 keq (S fuel) (whole ROps (CCubic rf_a)) (whole ROps (CCubic rf_b)) = Ok [(1 / 2, 1 / 2)] /\ px (Cubic_pointAtTime ROps rf_a (1 / 2)) - px (Cubic_pointAtTime ROps rf_b (1 / 2)) = 40 /\ px (Cubic_pointAtTime ROps rf_a (1 / 2)) - px (Cubic_pointAtTime ROps rf_a (1 / 10)) = 40).
 Proof. exact (@quantitative_clause_refuted). Qed.
+Theorem C06_cc_raw_sym_R_ok :
+  forall fuel (a b : piece R) (l : list (R * R)), cc_raw ROps fuel a b = Ok l -> exists l', cc_raw ROps fuel b a = Ok l' /\ Permutation (map swap_pair l) l'.
+Proof. exact cc_raw_sym_R_ok. Qed.
+Theorem C06_cc_raw_sym_R_err :
+  forall fuel (a b : piece R) (e : cc_error), cc_raw ROps fuel a b = Err e -> cc_raw ROps fuel b a = Err e.
+Proof. exact cc_raw_sym_R_err. Qed.
+Theorem C06_intersections_raw_sym_R :
+  forall fuel (c1 c2 : curve R) limited (l : list (R * pt R * R)), order (seg_of c1) = order (seg_of c2) -> intersections ROps (fun _ : R => tt) (fun _ _ : unit => false) fuel (seg_of c1) (seg_of c2) limited = Ok l -> exists l', intersections ROps (fun _ : R => tt) (fun _ _ : unit => false) fuel (seg_of c2) (seg_of c1) limited = Ok l' /\ Permutation (map (flip_ix ROps c2) l) l' /\ Permutation (map swap_pair (map (fun i : R * pt R * R => (fst (fst i), snd i)) l)) (map (fun i : R * pt R * R => (fst (fst i), snd i)) l').
+Proof. exact intersections_raw_sym_R. Qed.
+Theorem C06_dedup_order_dependence_witness :
+  cc_raw FOps 60 (whole FOps (CQuad wa)) (whole FOps (CQuad wb)) = Ok [(0x1.ffp-2, 0x1.7ap-3); (0x1.008p-1, 0x1.a18p-1)]%float /\ cc_raw FOps 60 (whole FOps (CQuad wb)) (whole FOps (CQuad wa)) = Ok [(0x1.7ap-3, 0x1.ffp-2); (0x1.a18p-1, 0x1.008p-1)]%float /\ cc_t FOps key2F keyF_eqb 60 (whole FOps (CQuad wa)) (whole FOps (CQuad wb)) = Ok [(0x1.ffp-2, 0x1.7ap-3)]%float /\ cc_t FOps key2F keyF_eqb 60 (whole FOps (CQuad wb)) (whole FOps (CQuad wa)) = Ok [(0x1.7ap-3, 0x1.ffp-2); (0x1.a18p-1, 0x1.008p-1)]%float /\ keyF_eqb (key2F 0x1.ffp-2%float) (key2F 0x1.008p-1%float) = true /\ (exists i1, intersections FOps key2F keyF_eqb 60 (SQuad wa) (SQuad wb) true = Ok [i1]) /\ (exists j1 j2, intersections FOps key2F keyF_eqb 60 (SQuad wb) (SQuad wa) true = Ok [j1; j2]).
+Proof. exact dedup_order_dependence_witness. Qed.
+Theorem C06_dedup_count_symmetry_refuted :
+  ~ (forall (fuel : nat) (a b : piece float) (l l' : list (float * float)), cc_t FOps key2F keyF_eqb fuel a b = Ok l -> cc_t FOps key2F keyF_eqb fuel b a = Ok l' -> length l = length l').
+Proof. exact dedup_count_symmetry_refuted. Qed.
+Theorem C06_dedup_swap_membership_refuted :
+  ~ (forall (fuel : nat) (a b : piece float) (l l' : list (float * float)) (x : float * float), cc_t FOps key2F keyF_eqb fuel a b = Ok l -> cc_t FOps key2F keyF_eqb fuel b a = Ok l' -> In x l -> exists y, In y l' /\ PrimFloat.eqb (fst y) (snd x) = true /\ PrimFloat.eqb (snd y) (fst x) = true).
+Proof. exact dedup_swap_membership_refuted. Qed.
+Theorem C06_raw_sym_example :
+  exists l l', cc_raw FOps 60 (whole FOps (CQuad na)) (whole FOps (CQuad nb)) = Ok l /\ cc_raw FOps 60 (whole FOps (CQuad nb)) (whole FOps (CQuad na)) = Ok l' /\ l <> [] /\ l' <> [] /\ Permutation (map swap_pair l) l'.
+Proof. exact raw_sym_example. Qed.
+Theorem C06_cc_raw_sym_any_carrier :
+  forall (T : Type) (O : Ops T) fuel (a b : piece T) l, cc_raw O fuel a b = Ok l -> exists l', cc_raw O fuel b a = Ok l' /\ Permutation (map swap_pair l) l'.
+Proof. exact @cc_raw_sym_ok. Qed.
+Theorem C06_cc_raw_sym_in :
+  forall (T : Type) (O : Ops T) fuel (a b : piece T) l l' t1 t2, cc_raw O fuel a b = Ok l -> cc_raw O fuel b a = Ok l' -> (In (t1, t2) l <-> In (t2, t1) l').
+Proof. exact @cc_raw_sym_in. Qed.
+Theorem C06_intersections_mixed_degree_eq :
+  forall (T : Type) (O : Ops T) (K : Type) (key2 : T -> K) (keq : K -> K -> bool) fuel (self other : segment T) limited, order self <> order other -> intersections O key2 keq fuel self other limited = intersections O key2 keq fuel other self limited.
+Proof. exact @intersections_mixed_degree_eq. Qed.
+Theorem C06_cc_err_sym :
+  forall (K : Type) (key2 : R -> K) (keq : K -> K -> bool), (forall a, keq a a = true) -> (forall a b c, keq a b = true -> keq b c = true -> keq a c = true) -> forall fuel a b e, cc_t ROps key2 keq fuel a b = Err e -> cc_t ROps key2 keq fuel b a = Err e.
+Proof. exact @cc_err_sym. Qed.
+Theorem C06_cc_dedup_sym :
+  forall (K : Type) (key2 : R -> K) (keq : K -> K -> bool), (forall a, keq a a = true) -> (forall a b c, keq a b = true -> keq b c = true -> keq a c = true) -> forall fuel a b l, cc_t ROps key2 keq fuel a b = Ok l -> exists lr lr' l', cc_raw ROps fuel a b = Ok lr /\ cc_raw ROps fuel b a = Ok lr' /\ cc_t ROps key2 keq fuel b a = Ok l' /\ Permutation (map swap_pair lr) lr' /\ (forall x, In x l -> In x lr) /\ (forall x, In x l' -> In x lr') /\ (forall x, In x l -> In (swap_pair x) lr') /\ (forall x, In x l' -> In (swap_pair x) lr) /\ (forall x, In x lr -> exists y, In y l /\ keq (key2 (fst x)) (key2 (fst y)) = true) /\ (forall x, In x lr' -> exists y, In y l' /\ keq (key2 (fst x)) (key2 (fst y)) = true) /\ (forall t1 t2, In (t1, t2) l -> exists u v, In (u, v) l' /\ keq (key2 t2) (key2 u) = true /\ In (v, u) lr).
+Proof. exact @cc_dedup_sym. Qed.
 
 Print Assumptions C06_range_invariant.
 Print Assumptions C06_repr_whole.
@@ -136,3 +172,15 @@ Print Assumptions C06_hasLoop_example_loop.
 Print Assumptions C06_hasLoop_example_noloop.
 Print Assumptions C06_no_miss_example.
 Print Assumptions C06_quantitative_clause_refuted.
+Print Assumptions C06_cc_raw_sym_R_ok.
+Print Assumptions C06_cc_raw_sym_R_err.
+Print Assumptions C06_intersections_raw_sym_R.
+Print Assumptions C06_dedup_order_dependence_witness.
+Print Assumptions C06_dedup_count_symmetry_refuted.
+Print Assumptions C06_dedup_swap_membership_refuted.
+Print Assumptions C06_raw_sym_example.
+Print Assumptions C06_cc_raw_sym_any_carrier.
+Print Assumptions C06_cc_raw_sym_in.
+Print Assumptions C06_intersections_mixed_degree_eq.
+Print Assumptions C06_cc_err_sym.
+Print Assumptions C06_cc_dedup_sym.
